@@ -75,6 +75,12 @@ impl default::Default for MemoryMap {
 }
 
 impl MemoryMap {
+    /// verif hook: number of items held in memory
+    #[cfg(feature = "verif-hooks")]
+    pub(crate) fn verif_len(&self) -> usize {
+        self.0.read().len()
+    }
+
     #[cfg(feature = "stats")]
     pub(crate) fn len(&self) -> usize {
         self.0.read().len()
